@@ -797,3 +797,59 @@ Definition holds_grow (a o : list N) : bool :=
       (64 * sp_stable_count (arg a 2) bs <=? cp)
   | _ => false
   end.
+
+(* ---------------- family poststep: decoders polled again after errors ---------------- *)
+Definition ev_of (r : res dec_err (item B3)) : list N :=
+  match r with
+  | Ok (IParent n l r') => [1; n; 64; dg (l ++ r')]
+  | Ok (ILeaf off d) => [2; off; blen B3 d; dg d]
+  | Err e => 3 :: dec_rc e ++ [0]
+  | Panic => [9; 0; 0; 0]
+  end.
+Fixpoint post_sync (fuel : nat) (st : dstate B3) : list N :=
+  match fuel with
+  | O => []
+  | S f => match dec_next B3 st with
+           | None => [0; 0; 0; 0]
+           | Some (Panic, _) => [9; 0; 0; 0]
+           | Some (r, st') => ev_of r ++ post_sync f st'
+           end
+  end.
+Fixpoint post_fsm (fuel : nat) (st : rstate B3) : list N :=
+  match fuel with
+  | O => []
+  | S f => match rd_next B3 st with
+           | RDone _ => [0; 0; 0; 0]
+           | RMore _ Panic => [9; 0; 0; 0]
+           | RMore st' r => ev_of r ++ post_fsm f st'
+           end
+  end.
+Definition run_poststep (a : list N) : list N :=
+  let s := decode_setup a in
+  let root := root_hash B3 (ds_data s) in
+  let t := mkTree (ds_claimed s) (ds_bs s) in
+  if ds_driver s =? 0 then post_sync 64 (dec_new B3 root t (ds_stream s) (ds_q s))
+  else post_fsm 64 (rd_new B3 root (ds_q s) t (ds_stream s)).
+
+(* C01 / C09 for a decoder that is polled past its first error: still no panic, and whatever it yields as Ok
+   is the blob's: a leaf holds the blob's bytes at its offset, a pair is the true pair of its node *)
+Fixpoint events4 (l : list N) (fuel : nat) : list (N * N * N * N) :=
+  match fuel with
+  | O => []
+  | S f => match l with a :: b :: c :: d :: r => (a, b, c, d) :: events4 r f | _ => [] end
+  end.
+Definition holds_poststep_gen (panic_matters foreign_matters : bool) (a o : list N) : bool :=
+  let s := decode_setup a in
+  let data := ds_data s in
+  forallb (fun e => match e with (k, x, y, z) =>
+    if k =? 9 then negb panic_matters
+    else if negb foreign_matters then true
+    else if k =? 2 then (z =? dg (slice B3 x y data)) && (x + y <=? blen B3 data) || ((y =? 0) && (blen B3 data =? 0))
+    else if k =? 1 then
+      (if ds_claimed s =? blen B3 data then
+         let '(l, r) := true_pair B3 data x in z =? dg (l ++ r)
+       else true)
+    else true end) (events4 o (length o)).
+(* C01: whatever is yielded as Ok is the blob's (a panic yields nothing); C09: no panic *)
+Definition holds_poststep (a o : list N) : bool := holds_poststep_gen false true a o.
+Definition holds_poststep9 (a o : list N) : bool := holds_poststep_gen true false a o.
